@@ -139,9 +139,6 @@ var c13cmp = gen.Register(&gen.Check[caseC13cmp]{
 		if got := s.IsOne(); got != (vs.Cmp(big.NewInt(1)) == 0) {
 			return gen.Fail("IsOne", "IsOne(%x) = %v", vs, got)
 		}
-		if s.Equal(nil) != 0 {
-			return gen.Fail("Equal/nil", "Equal(nil) != 0")
-		}
 		if s.S != s0 || t.S != t0 {
 			return gen.Fail("compare/mutates", "a comparison changed an operand")
 		}
